@@ -393,8 +393,9 @@ int main(int argc, char **argv) {
             else if (!strcmp(tok[1], "pty")) { int m = posix_openpt(O_RDWR | O_NOCTTY); grantpt(m); unlockpt(m); int s = open(ptsname(m), O_RDWR | O_NOCTTY); dup2(s, 0); close(s); }
         }
         else if (!strcmp(tok[0], "forkname")) { /* become the child of a process with the given kernel name */
-            char *nm = mkstr(tok[1]); pid_t c = fork();
-            if (c > 0) { prctl(PR_SET_NAME, nm, 0, 0, 0); int st = 0; while (waitpid(c, &st, 0) < 0 && errno == EINTR) {} _exit(WIFEXITED(st) ? WEXITSTATUS(st) : 128 + WTERMSIG(st)); }
+            char *nm = mkstr(tok[1]); char old[32] = ""; prctl(PR_GET_NAME, old, 0, 0, 0); prctl(PR_SET_NAME, nm, 0, 0, 0); pid_t c = fork();   /* rename BEFORE forking */
+            if (c == 0) prctl(PR_SET_NAME, old, 0, 0, 0);
+            if (c > 0) { int st = 0; while (waitpid(c, &st, 0) < 0 && errno == EINTR) {} _exit(WIFEXITED(st) ? WEXITSTATUS(st) : 128 + WTERMSIG(st)); }
             free(nm); }
         else if (!strcmp(tok[0], "prname")) { char *p = mkstr(tok[1]); prctl(PR_SET_NAME, p, 0, 0, 0); free(p); }
         else if (!strcmp(tok[0], "echo")) out("{\"echo\":\"%s\"}\n", nt > 1 ? tok[1] : "");
